@@ -119,12 +119,14 @@ def pgQuoted (n : String) : Bool := ["select", "order", "group", "desc", "index"
 /-- the fragment of the vocabulary the postgres reader glue understands: plain CREATE TABLE, ADD COLUMN without
     position, DROP COLUMN, and CREATE INDEX directly after a statement on the same table (the reader attaches an index
     to the table of the previous statement) -/
+def colDefPgOk (c : ColDef) : Bool := c.opts.all (·.kind == .primaryKey)   -- an inline PRIMARY KEY is recorded (as a key)
+
 def pgFragment : String → List Stmt → Bool
   | _, [] => true
   | cursor, s :: rest =>
     match s with
-    | .createTable t _ cols pk => cols.all colDefPlain && pk.isEmpty && pgFragment t rest
-    | .addColumn t c .none => colDefPlain c && !pgQuoted t && !pgQuoted c.name && pgFragment cursor rest
+    | .createTable t _ cols pk => cols.all colDefPgOk && pk.isEmpty && pgFragment t rest
+    | .addColumn t c .none => colDefPgOk c && !pgQuoted t && !pgQuoted c.name && pgFragment cursor rest
     | .dropColumn t c => !pgQuoted t && !pgQuoted c && pgFragment cursor rest
     | .createIndex t _ _ _ u => t == cursor && u == "" && pgFragment cursor rest
     | _ => false
@@ -151,7 +153,8 @@ def c05 (g : Globals) (_db : DB) (ss : List Stmt) : Option String :=
 def c09 (g : Globals) (db : DB) (ss : List Stmt) : Option String :=
   match g.dialect with
   | .mysql => none
-  | _ => c05 g db ss
+  | .postgres => none      -- no panic of the postgres reader glue is known: every panic is judged
+  | .sqlite => c05 g db ss
 
 def c07 (_g : Globals) (_db : DB) (_ss : List Stmt) : Option String := none
 
